@@ -74,7 +74,20 @@ def main():
                  'the correspondence harness (canonicalisers in tools/checks/pyfmt_common.py, Driver/PyFmt.lean)'],
         explanation=EXPLANATION)
 
-EXPLANATION = 'see tools/manifest.d/C12.json'
+EXPLANATION = (
+    'Proved in Lean for all strings s in the domain PlainPercent s (every conversion specification whose conversion character is % is '
+    'exactly %%): accept_formats (accepted => CPython-model formats it with any arguments of the reported shape and types), '
+    'argsOf_matches / accept_formats_canonical (such arguments exist: a tuple, or a mapping thanks to one-type-per-key and the '
+    'named/unnamed exclusion), malformed_rejected (rejected by CPython whatever the arguments => rejected by the parser), '
+    'reject_reasons (rejected although CPython can format => ArgumentIndexingMixture / ArgumentTypeMismatch / WidthRangeError / '
+    'PrecisionRangeError), error_means_malformed. For all strings: error_own (only own Error classes; asserts and the termination '
+    'device unreachable; int(ch) only sees one ASCII digit, so there is no digit-limit issue here). Pins: info_pin, types_pin, '
+    'probes_pin (kernel evaluation of the model on ~1700 probed directives). Test-level only: the fidelity of Spec.CPyPercent to the '
+    'interpreter (pyfmt-oracle stream against CPython 3.12.1, 64-bit; values abstracted to int/float/str/other; text and memory not '
+    'modelled) and of the hand-written model to the code (pyfmt-* streams). Finding fixed in /repo: 84eb507 (integer conversions with '
+    'literal precision 2^31-3..2^31-1 were accepted; CPython raises OverflowError for them whatever the argument). OUTSTANDING: '
+    'nothing of the design list is missing; not stated in Lean: that a documented rejection reason is *true of the string* '
+    '(checked by the falsifier against an independent reading), arguments given as a single non-tuple value.')
 
 if __name__ == '__main__':
     common.main_wrapper(main)
